@@ -59,7 +59,7 @@ type SCase struct {
 	NBranch int     `json:"nbranch"`
 	Sess    []int   `json:"sess"`
 	Autos   []int   `json:"autos"`
-	Steps   [][]int `json:"steps"` // [sess, kind, x, table]: 0 gen, 1 explicit x, 2 commit, 3 rollback, 4 switch to branch x, 5 restart, 6 alter auto_increment = x
+	Steps   [][]int `json:"steps"` // [sess, kind, x, table]: 0 gen, 1 explicit x, 2 commit, 3 rollback, 4 switch to branch x, 5 restart, 6 alter auto_increment = x, 7 drop + create the table on the session's branch
 }
 
 type SObs struct {
@@ -163,6 +163,10 @@ func runServer(raw json.RawMessage) (any, error) {
 			}
 		case 6:
 			if err := sess[s].MustExec("COMMIT", fmt.Sprintf("ALTER TABLE %s AUTO_INCREMENT = %d", tb, x), "COMMIT"); err != nil {
+				id, o.Msg = -2, err.Error()
+			}
+		case 7:
+			if err := sess[s].MustExec("COMMIT", "DROP TABLE "+tb, fmt.Sprintf("CREATE TABLE %s (id int primary key auto_increment, v int)", tb), "COMMIT"); err != nil {
 				id, o.Msg = -2, err.Error()
 			}
 		}
